@@ -67,7 +67,7 @@ def judge_runs128(rep, traces, wd):
 def judge_fast(rep, cases, wd):
     """run(start, stop) observations of every implementation/configuration judged by FastRun.tla (Step iterated to `stop`)."""
     bad, skipped = [], []
-    keys = ('r0', 'ov0', 'stop', 'max', 'frame', 'ia', 'inv')
+    keys = ('r0', 'ov0', 'stop', 'max', 'frame', 'ia', 'inv', 'ints')
     slim = [dict({k: c[k] for k in keys}, obs=[{k: o[k] for k in ('impl', 'r', 'wr', 'exc')} for o in c['obs']]) for c in cases]
     path = os.path.join(wd, 'fast.json')
     with open(path, 'w') as f:
@@ -75,7 +75,19 @@ def judge_fast(rep, cases, wd):
     r = tlc.run(os.path.join(tlc.SPEC, 'z80'), 'FastRun', 'FastRun.cfg', env={'CASES': path}, tag='FastRun', timeout=3600, heap='16g')
     tlc.check_machinery(r, 'FastRun')
     rep.add_tlc(r, 'FastRun', traces=len(cases))
-    expect = sum(c['steps'] + 1 for c in cases)
+    lens = {}
+    for name, rest in r.notes:
+        if name == 'LEN':
+            tid, n, acc = [int(x) for x in rest.replace('>>', '').split(',')[:3]]
+            lens[tid - 1] = n
+            cases[tid - 1]['accepted'] = acc
+    if len(lens) != len(cases):
+        raise MachineryError('FastRun: %d of %d runs finished\n%s' % (len(lens), len(cases), r.out[-2000:]))
+    for i, c in enumerate(cases):
+        if c['steps'] >= 0 and lens[i] != c['steps']:
+            raise MachineryError('FastRun: case %d takes %d steps in the specification, %d when stepped on the plain simulator' % (i, lens[i], c['steps']))
+        c['steps'] = lens[i]
+    expect = sum(n + 1 for n in lens.values())
     if r.distinct != expect:
         raise MachineryError('FastRun: expected %d states, TLC found %d\n%s' % (expect, r.distinct, r.out[-3000:]))
     for i, clause in [(code - 1, clause) for code, clause in r.fails]:
@@ -109,14 +121,19 @@ def fast_section(rep, tier, sd, wd):
     djnz = sum(1 for c in cases if c['kind'] != 'ldir' and not c['r0'][26])
     rep.extra['fast_run_cases'] = len(cases)
     rep.extra['fast_run_copy_reaches_own_bytes'] = own
-    rep.extra['fast_run_instructions'] = sum(c['steps'] for c in cases)
     if own < 40 or djnz < 40 or len(cases) < 8 * n:
         raise MachineryError('vacuous C06 fast-run section: %d cases, %d copies over the own instruction, %d DJNZ' % (len(cases), own, djnz))
     log('C06: %d run(start, stop) programs (%d copies reaching the instruction itself)' % (len(cases), own))
-    for c, clause in judge_fast(rep, cases, wd):
+    bad = judge_fast(rep, cases, wd)
+    rep.extra['fast_run_instructions'] = sum(c['steps'] for c in cases)
+    rep.extra['fast_run_with_interrupts'] = sum(c['ints'] for c in cases)
+    rep.extra['fast_run_interrupts_accepted'] = sum(c.get('accepted', 0) for c in cases)
+    if rep.extra['fast_run_interrupts_accepted'] < 20:
+        raise MachineryError('vacuous C06 fast-run section: %d interrupts accepted' % rep.extra['fast_run_interrupts_accepted'])
+    for c, clause in bad:
         rep.violation('fast:%s:%s' % (c['kind'], clause),
-                      'run(%d, %d) of a %s program (%d instructions when stepped, loop instruction at %d, IFF=%d): %s; final registers %s'
-                      % (c['r0'][24], c['stop'], c['kind'], c['steps'], c['at'], c['r0'][26], clause,
+                      'run(%d, %d, interrupts=%d) of a %s program (%d instructions when stepped, loop instruction at %d, IFF=%d): %s; final registers %s'
+                      % (c['r0'][24], c['stop'], c['ints'], c['kind'], c['steps'], c['at'], c['r0'][26], clause,
                          {o['impl']: o['r'] for o in c['obs']}), dict(c, kind='fast-' + c['kind']))
     rep.evaluations += len(cases) * 3
     for c in cases:
@@ -147,6 +164,10 @@ def run(tier):
     pagings = sum(1 for t in traces128 for i, o in enumerate(t['obs']) if o['o7'] != (t['o70'] if i == 0 else t['obs'][i - 1]['o7']))
     locked_outs = sum(1 for t in traces128 for i, o in enumerate(t['obs'])
                       if (t['o70'] if i == 0 else t['obs'][i - 1]['o7']) & 32 and any(e[0] == 'o' and e[1] & 0x8002 == 0 for e in o['io']))
+    big = sum(1 for t in traces + traces128 if t.get('tbase', '0') != '0')
+    rep.extra['runs_with_clock_around_or_beyond_2^32'] = big
+    if big < 40:
+        raise MachineryError('vacuous C06 run: %d runs with a large T-state counter' % big)
     rep.extra['paging_changes_in_128k_traces'] = pagings
     rep.extra['writes_to_7ffd_while_locked'] = locked_outs
     rep.extra['boundaries_128k'] = nsteps128
@@ -192,7 +213,7 @@ def run(tier):
                           '%s: %d instructions executed by ONE call of the trace loop end in a different state than the same '
                           'instructions executed one call at a time (start T=%d): %s' % (t['pair'], len(t['obs']), t['r0'][25], t['whole']), t)
     rep.rule = ('generated programs (byte soup, prefix-heavy, structured EI/HALT/IM2/loops/block ops/self-modifying, code '
-                'straddling 0xFFFF) run one instruction at a time through trace.py\'s loop on py+c and pycm+ccm; every boundary '
+                'straddling 0xFFFF; a quarter with the T-state counter crossing or beyond 2^32) run one instruction at a time through trace.py\'s loop on py+c and pycm+ccm; every boundary '
                 'judged by TLC as Z80!StepInt and for bit-identical pair state; 128K programs (0x7FFD paging incl. ROM/lock bits, '
                 'decoded and undecoded ports, OUTI, stores/stack/calls into the paged bank, interrupts right after paging) judged '
                 'by Machine128 (Step + latch + physical pages); runs that page bank 2/5 in at 0xC000 are judged for pair '
@@ -216,11 +237,11 @@ def rerun(rp, path):
     if 'pov0' in rp:
         replaylib.need(rp, path, 'o70')
         return progdrv.run_pair128(pair, rp.get('kind') == '128k-alias' or not rp.get('sem', 1), rp['r0'], rp['pov0'], rp['o70'], rp['inv'],
-                                   bool(rp['ints']), steps), True
+                                   bool(rp['ints']), steps, int(rp.get('tbase', 0))), True
     replaylib.need(rp, path, 'ov0')
     if rp.get('kind') == 'int-push':
         return progdrv.int_push(pair, rp['r0'], rp['ov0'], rp['inv'], rp.get('slot', '?')), False
-    return progdrv.run_pair(pair, rp.get('kind', '?'), rp['r0'], rp['ov0'], rp['inv'], bool(rp['ints']), steps), False
+    return progdrv.run_pair(pair, rp.get('kind', '?'), rp['r0'], rp['ov0'], rp['inv'], bool(rp['ints']), steps, int(rp.get('tbase', 0))), False
 
 
 def replay(path):
@@ -231,7 +252,7 @@ def replay(path):
     if str(rp.get('kind', '')).startswith('fast-'):
         replaylib.need(rp, path, 'r0', 'ov0', 'stop')
         cbuild.preload()
-        c = progdrv.fast_case(rp['kind'][5:], rp['r0'], rp['ov0'], rp['stop'], rp.get('at', -1))
+        c = progdrv.fast_case(rp['kind'][5:], rp['r0'], rp['ov0'], rp['stop'], rp.get('at', -1), rp.get('ints', 0))
         if c is None:
             raise MachineryError('unusable replay file %s: the program does not reach its stop address when stepped' % path)
         found = ['fast:%s:%s: run(%d, %d) final registers %s' % (c['kind'], clause, c['r0'][24], c['stop'], {o['impl']: o['r'] for o in c['obs']})
